@@ -167,6 +167,10 @@ func genExt(o *Out, rng *rand.Rand, tier string) {
 		rec = map[string]any{"op": "Req4", "pkt": proj4(q), "code": code}
 		safeRec(rec, func() { rec["res"] = q.IsOptionRequested(dhcpv4.GenericOptionCode(code)) })
 		o.Emit(rec, "is-option-requested-v4", append([]byte{byte(code)}, q.ToBytes()...), true)
+		hc := pick(rng, 1, 3, 6, 51, 55, 119, rng.Intn(256))
+		rec = map[string]any{"op": "Has4", "pkt": proj4(q), "code": hc}
+		safeRec(rec, func() { rec["res"] = q.Options.Has(dhcpv4.GenericOptionCode(hc)) })
+		o.Emit(rec, "options-has-v4", append([]byte{'h', byte(hc)}, q.ToBytes()...), true)
 	}
 	_ = time.Second
 }
